@@ -39,6 +39,96 @@ def check(run, prog, tier):
     rule_C(run, prog)
     rule_D(run, prog)
     rule_E(run, prog)
+    run.rule("C03-F", "coupling() between aggregate states: exhaustive finite evaluation over occupation "
+                      "signatures (N <= 5 molecules, bands 0..2)", minimum=6)
+    rule_F(run, prog)
+
+
+def _signatures(n, mmax, total):
+    out = []
+
+    def rec(prefix, left):
+        if len(prefix) == n:
+            if left == 0:
+                out.append(tuple(prefix))
+            return
+        for v in range(min(mmax, left) + 1):
+            rec(prefix + [v], left - v)
+    rec([], total)
+    return out
+
+
+def rule_F(run, prog):
+    """The element of the Hamiltonian between two aggregate states of the same band is J[k,l] (times the
+    vibrational overlap, times the harmonic ladder factors for multiply excited molecules) when the
+    two occupation signatures differ on exactly the molecules k and l by one quantum moved, and zero
+    otherwise; states of different bands are not coupled.  coupling() is interpreted (qv/feval.py)
+    on every pair of signatures up to the bound and compared with this statement."""
+    import math
+    from .. import feval
+    from ..feval import Stub, Sym, SymArr
+    rid = "C03-F"
+    c = prog.func(AB + "coupling")
+    params = [a.arg for a in c.node.args.args]
+    if params[:3] != ["self", "state1", "state2"]:
+        raise AnalysisError("coupling() signature changed: %s" % params)
+    fc = Sym(1.0, ("fc",))
+    configs = [("ElectronicState", n, 1) for n in (2, 3, 4, 5)] + [("VibronicState", n, 1) for n in (2, 3, 4, 5)] + \
+              [("VibronicState", n, 2) for n in (2, 3, 4)]
+    for kind, n, mmax in configs:
+        selfo = Stub("AggregateBase", nmono=n, resonance_coupling=SymArr("J", symmetric=True))
+        selfo.methods = {"fc_factor": lambda a, b: fc, "convert_energy_2_current_u": lambda v: v}
+        states = []
+        for band in (0, 1, 2):
+            for sig in _signatures(n, mmax, band):
+                states.append((band, sig))
+        objs = []
+        for idx, (band, sig) in enumerate(states):
+            # one-exciton states are numbered 1..n in the order of the excited molecule
+            index = (sig.index(1) + 1) if band == 1 else idx
+            if band == 0:
+                index = 0
+            es = Stub("ElectronicState", band=band, elsignature=sig, index=index)
+            objs.append(es if kind == "ElectronicState" else Stub("VibronicState", elstate=es, index=idx))
+        bad = []
+        npairs = 0
+        for i, (b1, a) in enumerate(states):
+            for j, (b2, b) in enumerate(states):
+                if i == j:
+                    continue
+                npairs += 1
+                ev = feval.Evaluator()
+                try:
+                    args = {"self": selfo, "state1": objs[i], "state2": objs[j]}
+                    for extra in c.node.args.args[3:]:
+                        dflt = c.node.args.defaults[len(c.node.args.defaults) - (len(c.node.args.args) - c.node.args.args.index(extra))]
+                        args[extra.arg] = ast.literal_eval(dflt)
+                    got = ev.call_function(c.node, args)
+                except feval.Unsupported as e:
+                    raise AnalysisError("coupling(): construct outside the finite evaluator's vocabulary: %s" % e)
+                except feval.Raised as e:
+                    got = "raise %s" % e
+                diff = [k for k in range(n) if a[k] != b[k]]
+                moved = sum(abs(a[k] - b[k]) for k in range(n))
+                if b1 == b2 and b1 >= 1 and len(diff) == 2 and moved == 2:
+                    exp = SymArr("J", symmetric=True).at(diff)
+                    if kind == "VibronicState":
+                        exp = exp * fc
+                        if b1 >= 2:
+                            exp = exp * math.sqrt(max(a[diff[0]], b[diff[0]])) * math.sqrt(max(a[diff[1]], b[diff[1]]))
+                else:
+                    exp = Sym(0.0)
+                if isinstance(got, (int, float)):
+                    got = Sym(got)
+                if not isinstance(got, Sym) or not got.same(exp):
+                    bad.append((a, b, repr(got), repr(exp)))
+        run.obligation(rid, "AggregateBase.coupling", not bad,
+                       key="finite:%s:N=%d:max-occupation=%d" % (kind, n, mmax),
+                       message="coupling() deviates from 'J[k,l] between states that differ by one quantum moved "
+                               "between molecules k and l, zero otherwise' on %d of %d pairs of %s signatures; first: "
+                               "%s -> %s gives %s, expected %s" % ((len(bad), npairs, kind) + (bad[0] if bad else ("", "", "", ""))),
+                       loc=c.loc(), sample={"kind": kind, "molecules": n, "max_occupation": mmax,
+                                            "states": len(states), "pairs": npairs})
 
 
 def rule_A(run, prog):
